@@ -1,7 +1,7 @@
 META = dict(
     engine='cosched+seqx',
     technique='stateless model checking: preemption-bounded exhaustive schedule enumeration (CHESS) of concurrent schedule/select on the 11 real scheduler modules over borrowed execution streams of a parsec_init context; plus bounded-exhaustive schedule/select sequences with buffer overflow',
-    level_text='For each of the 11 scheduler modules (selected through mca_sched, installed by parsec_init, flow_init run for every stream): (E1) every interleaving with <= b preemptions (quick: b=1 on the three core scripts per module plus module-specific ones, b=2 for the llp writer scripts and ll ring-vs-steal, 3-thread script for lfq and llp; thorough: all scripts, 2 streams b=2 for all and b=3 for ll/llp, 3 streams b=1 for all and b=2 for ll/llp/gd) of seven 2-3 thread scripts (ring vs steal, foreign push onto stream 0, two writers, buffer overflow vs steal, re-schedule with distance, communication-thread push, three active streams); (E2) every sequence of schedule(ring shape, distance)/select operations up to depth 3-4 (quick) / 4-5 (thorough) on 2 streams and depth 3 / 4 on 3 streams (alphabet sizes in the leg names: shapes x distances), ring shapes including rings larger than all bounded buffers; the same through the real __parsec_schedule_vp (next_task retention, dispatch to stream 0, NULL submitter) with selection as in __parsec_get_next_task. Oracle: every select returns NULL or a pending task, never a task twice, and a drain of all streams returns every task handed to schedule.',
+    level_text='For each of the 11 scheduler modules (selected through mca_sched, installed by parsec_init, flow_init run for every stream): (E1) every interleaving with <= b preemptions (quick: b=1 on the three core scripts per module plus module-specific ones, b=2 for the llp writer scripts, lfq push/push and ll ring-vs-steal, 3-thread script for lfq and llp; thorough: all scripts, 2 streams b=2 for all and b=3 for ll/llp, 3 streams b=1 for all and b=2 for ll/llp/gd) of eight 2-3 thread scripts (ring vs steal, foreign push onto stream 0, two writers, minimal push/push, buffer overflow vs steal, re-schedule with distance, communication-thread push, three active streams); (E2) every sequence of schedule(ring shape, distance)/select operations up to depth 3-4 (quick) / 4-5 (thorough) on 2 streams and depth 3 / 4 on 3 streams (alphabet sizes in the leg names: shapes x distances), ring shapes including rings larger than all bounded buffers; the same through the real __parsec_schedule_vp (next_task retention, dispatch to stream 0, NULL submitter) with selection as in __parsec_get_next_task. Oracle: every select returns NULL or a pending task, never a task twice, and a drain of all streams returns every task handed to schedule.',
     level_note='Sequential consistency at instrumented accesses to the watched scheduler objects and task links; 2-3 threads, <= 4 operations per thread; select only by the owning thread and foreign schedule only onto stream 0 (the usage contract of scheduling.c); synthetic 2-package hwloc topology; weak-memory effects out of reach.',
 )
 RULE = ("cosched legs: every schedule of the 2-3 thread script with at most b preemptions, scheduling points = instrumented accesses of libparsec to the "
@@ -36,8 +36,8 @@ def check(ctx):
     for m in MODS:
         if quick:
             # quick: bound 1, three core scripts per module (+ the module-specific ones), bound 2 where the lock-free merge / lifo code is
-            only = ['sched_vs_steal', 'two_writers', 'resched'] + {'llp': ['foreign_push'], 'lfq': ['overflow'], 'pbq': ['overflow'], 'lhq': ['foreign_push']}.get(m, [])
-            full = {'llp': ['two_writers', 'foreign_push'], 'll': ['sched_vs_steal']}.get(m)
+            only = ['sched_vs_steal', 'two_writers', 'resched'] + {'llp': ['foreign_push', 'push_push'], 'lfq': ['overflow', 'push_push'], 'pbq': ['overflow'], 'lhq': ['foreign_push']}.get(m, [])
+            full = {'llp': ['push_push', 'two_writers', 'foreign_push'], 'll': ['sched_vs_steal'], 'lfq': ['push_push']}.get(m)
             a = ['--sched', m, '--streams', '2', '--bound', '2' if full else '1', '--scenario', 'all', '--jobs', '2' if full else '1', '--deadline', '70']
             for o in only: a += ['--only', o]
             for f in (full or []): a += ['--full', f]
@@ -52,13 +52,14 @@ def check(ctx):
     ctx.set_budget(max(85, built + 45) if quick else 1080)
     def one(j):
         label, exe, args, dl = j
-        dl = int(max(15, min(dl, ctx.remaining())))
+        if not (quick and label in ('conc_llp_k2', 'conc_lfq_k2', 'conc_ll_k2')):      # the bound-2 legs of the quick tier always get their full deadline
+            dl = int(max(15, min(dl, ctx.remaining())))
         if exe == conc:
             args = args[:args.index('--deadline') + 1] + [str(dl)] + args[args.index('--deadline') + 2:]
         extra = ['--deadline', str(dl)] if exe == seq else []
         return ctx.run_engine(exe, args + extra + ['--outdir', vlib.OUT], label=label, timeout=dl + 400)
     # the slow ones first
-    slow = ('llp', 'lhq', 'lfq', 'ltq', 'pbq')
+    slow = ('llp', 'lfq', 'll', 'lhq', 'ltq', 'pbq')
     jobs.sort(key=lambda j: (0 if j[0].startswith('conc') else 1, 0 if j[0].split('_')[1] in slow else 1))
     with ThreadPoolExecutor(max_workers=max(2, vlib.NJOBS // 2)) as ex:
         list(ex.map(one, jobs))
